@@ -45,6 +45,8 @@ func (e *Engine) verifyFunction(f *ssa.Function, spec *FuncSpec) *collector {
 	}
 	for _, fv := range f.FreeVars {
 		v := s.freshVal("fv:"+fv.Name(), fv.Type())
+		// a free variable is the address of the captured variable: never nil
+		s.assume(not(eq(v.Terms[0], "0")))
 		s.regs[fv] = v
 		// free variables are pointers to the captured variable; expose the captured value by name
 		s.entryVars["&"+fv.Name()] = v
@@ -116,6 +118,11 @@ func (c *collector) specErr(e *Engine, f *ssa.Function, cl *Clause, err error) {
 
 func (s *State) specEnv() *SpecEnv {
 	env := &SpecEnv{st: s, old: s.entry, vars: map[string]Val{}, fn: s.fn}
+	for k, v := range s.entryVars {
+		if strings.HasPrefix(k, "&") {
+			env.vars[k] = v // captured variables are reachable through their address everywhere
+		}
+	}
 	if s.fn.Pkg != nil {
 		env.pkg = s.fn.Pkg.Pkg
 	} else if s.fn.Parent() != nil && s.fn.Parent().Pkg != nil {
